@@ -465,6 +465,19 @@ class CharInterp(GInterp):
             if lo is not None and 0 <= lo and hi <= 0xD7FF:
                 return Adt("core::option::Option", 1, "Some", [x])
             raise Undecided("char::from_u32 of a value that may not be a scalar value")
+        if c == "core::num::NonZero::<T>::new":
+            # Some(x) exactly when x != 0; the non-zero wrapper is transparent
+            x = self.operand(st, t["args"][0])
+            if lin_parts(x) is None:
+                raise Undecided("NonZero::new of an unmodelled value")
+            lo, hi = bitsem.lin_range(x)
+            if lo > 0 or hi < 0:
+                return Adt("core::option::Option", 1, "Some", [x])
+            if lo == 0 and hi == 0:
+                return Adt("core::option::Option", 0, "None", [])
+            raise Undecided("NonZero::new may or may not succeed inside one region")
+        if c == "core::num::NonZero::<T>::get":
+            return self.operand(st, t["args"][0])
         if c in ("core::option::Option::<T>::unwrap", "core::result::Result::<T, E>::unwrap"):
             args = [self.operand(st, a) for a in t["args"]]
             o = args[0]
